@@ -190,6 +190,22 @@ def check_geometry(ctx, mask, radius, threshold, tag=''):
             get_volume_searchlight(np.ones(mask.shape, dtype=bool), radius=radius + 1, threshold=1.0)
         except Exception:
             pass
+        # ... and the caller's mask *array object* held other content a moment ago (a mask that is edited in place between
+        # two analyses: what is computed is a function of its content now, not of the object)
+        saved = mask.copy()
+        try:
+            mask[...] = np.roll(saved, 1, axis=0) if saved.shape[0] > 1 else (saved == 0).astype(saved.dtype)
+            try:
+                get_volume_searchlight(mask, radius=radius, threshold=threshold)
+            except Exception:
+                pass
+        except ValueError:
+            pass           # read-only mask
+        finally:
+            try:
+                mask[...] = saved
+            except ValueError:
+                pass
         ctx.probe('geometry_prehistory')
     try:
         # (numbers arrive as Python scalars or as numpy scalars, e.g. elements of np.arange(...) / 10)
